@@ -20,6 +20,11 @@ def specs_for(ctx):
         tissue = {"kind": "equilibrium", "ncells": rng.choice([6, 10, 16, 25] if ctx.quick else [6, 10, 16, 25, 40, 60]),
                   "mobius": rng.choice([0.0, 0.4, 0.9, 1.5])}
         k = rng.choice([0, 1, 2, 4, 7, 11, 16])
+        # a third of the tissues are rotated so that one end segment at a used junction is exactly axis parallel (few points
+        # per interface there: the end segment then differs most from the tangent)
+        align = rng.random() < 0.33
+        if align:
+            k = rng.choice([1, 1, 2, 2, 4])
         far = rng.random() < 0.08
         seed = rng.randrange(10 ** 9)
         sim = {"theta": rng.choice([rng.uniform(0, 2 * math.pi), rng.choice([0, 1, 2, 3]) * math.pi / 2 + rng.choice([-1, 1]) * 1e-3]),
@@ -37,7 +42,7 @@ def specs_for(ctx):
                 continue
             specs.append({"tissue": tissue, "k": k, "seed": seed, "want": ["C01"], "sim": sim,
                           "build": {"limit": "inf", "fit": fit}, "solve": {"method": method}, "resample": resample,
-                          "require_conditioned": True, "inplace_sim": inplace, "align": rng.random() < 0.25,
+                          "require_conditioned": True, "inplace_sim": inplace, "align": align,
                           "ids": {"offset": rng.choice([0, 4]), "stride": rng.choice([1, 2]), "vperm": rng.random() < 0.5}})
     return specs
 
